@@ -92,9 +92,20 @@ fn label(prefix: &str, g: u32) -> Vec<u8> {
     format!("{prefix}{g}").into_bytes()
 }
 
+/// Generations 3, 6, ... hold the zone as a not-yet-loaded placeholder: queries get SERVFAIL, never data
+/// of an earlier generation.
+fn is_placeholder(g: u64) -> bool {
+    g % 3 == 0
+}
+
 /// The catalog of generation g: every record carries g.
 fn catalog(g: u32) -> Arc<Cat> {
     let apex = name("g.test.");
+    if is_placeholder(g as u64) {
+        let mut c: Cat = quandary::db::HashMapTreeCatalog::new();
+        c.insert(quandary::db::catalog::Entry::NotYetLoaded(qn(&apex), quandary::class::Class::from(1), ()));
+        return Arc::new(c);
+    }
     let mut z = ZoneBuilder::new(&apex);
     z.soa(&apex, 1000 + g, g, 2000 + g);
     let ns = apex.child(&label("ns", g));
@@ -453,7 +464,17 @@ fn querier(server: &Arc<Server<Cat>>, prog: &Arc<Progress>, qs: &[Query], qi: us
                     oracle_fail("unsigned-request-answered-with-tsig", &context);
                 }
 
-                if answered {
+                let servfail = d.header.rcode == 2 && d.answers.is_empty() && d.authority.is_empty();
+                if answered && servfail {
+                    // only a generation that holds the zone as a placeholder answers like this
+                    if !(cat_lo..=cat_hi).any(is_placeholder) {
+                        oracle_fail("servfail-although-no-possible-catalog-holds-a-placeholder", &context);
+                    }
+                    stats.lock().unwrap().2 += 1;
+                } else if answered {
+                    if (cat_lo..=cat_hi).all(is_placeholder) {
+                        oracle_fail("stale-catalog-after-set_catalog-returned", &format!("data although every catalog that may be in use holds the zone as a not-yet-loaded placeholder; {context}"));
+                    }
                     // every marker of the response names one generation within the bracket
                     let mut seen: Vec<u32> = Vec::new();
                     let mut n_records = 0;
